@@ -279,6 +279,9 @@ MODEL_SCRIPTS = [
     [['new', 'P'], ['gvc', 'E', 1], ['sim', 'P', 0], ['gvc', 'Q', 0], ['sim', 'P', 1]],
     [['new', 'P'], ['new', 'Q'], ['sim', 'P', 0], ['sim', 'Q', 1], ['sim', 'P', 1], ['sim', 'Q', 0]],
     [['new', 'E'], ['sim', 'E', 0], ['new', 'P'], ['sim', 'P', 1], ['sim', 'E', 1], ['new', 'Q'], ['sim', 'E', 0], ['sim', 'Q', 1]],
+    # the same formula object evaluated again and again with temporary identifiers: another dictionary, then none
+    [['gvc', 'E', 1], ['gvc', 'E', None], ['gvc', 'E', 0], ['gvc', 'P', 1], ['gvc', 'P', None], ['gvc', 'E', 1]],
+    [['gvc', 'P', None], ['gvc', 'P', 1], ['gvc', 'P', None], ['gvc', 'Q', 1], ['gvc', 'Q', 0]],
 ]
 MODEL_SCRIPTS_ONE_ROW = [
     [['fn', 'P', 0], ['gvc', 'E', 1], ['fn', 'P', 1], ['new', 'Q'], ['fn', 'P', 0], ['sim', 'Q', 1]],
@@ -292,7 +295,7 @@ def random_model_script(rng):
     for _ in range(rng.choice([5, 6, 7, 8])):
         m = rng.choice(['E', 'P', 'Q'])
         if rng.random() < 0.35:
-            script.append(['gvc', m, rng.choice([0, 1])])
+            script.append(['gvc', m, rng.choice([0, 1, None])])
             continue
         if m not in have:
             script.append(['new', m])
@@ -365,7 +368,7 @@ def stream_models(ctx):
                 break
             tree = strip_sids(c[s_[1]])
             for row, v in zip(c['rows'], vals):
-                vc.append({'expr': tree, 'env': {'beta': c['valsets'][s_[2]], 'var': row}, 'observed': v})
+                vc.append({'expr': tree, 'env': {'beta': c['valsets'][s_[2] if s_[2] is not None else 0], 'var': row}, 'observed': v})
                 meta.append((c, step, s_))
     for (c, step, s_), (v, info) in zip(meta, check_values(ctx, 'c01models', vc, relbits=-30)):
         if v == 'differ':
